@@ -201,3 +201,18 @@ func modulePkg(p *types.Package) bool {
 func isTestPkgPath(path string) bool {
 	return strings.Contains(path, "/test/") || strings.HasSuffix(path, "/test") || strings.Contains(path, "/internal/generator")
 }
+
+// libFuncs: source functions of the library proper (see libPkgs).
+func libFuncs(c *core.Ctx) []*ssa.Function {
+	lib := map[string]bool{}
+	for _, p := range libPkgs(c) {
+		lib[p.PkgPath] = true
+	}
+	var out []*ssa.Function
+	for _, fn := range srcFuncs(c) {
+		if fn.Pkg != nil && lib[fn.Pkg.Pkg.Path()] {
+			out = append(out, fn)
+		}
+	}
+	return out
+}
